@@ -1495,7 +1495,12 @@ func (p *Parser) parseNodeList(end token.Type) []ast.Node {
 		if err := p.nextToken(); err != nil {
 			return nil
 		}
-		list = append(list, p.parseNode(LOWEST))
+		node := p.parseNode(LOWEST)
+		if node == nil && !p.curTokenIs(token.EOF) {
+			p.setTokenError(p.curToken, "invalid syntax in list expression")
+			return nil
+		}
+		list = append(list, node)
 	}
 	for p.peekTokenIs(token.NEWLINE) {
 		if err := p.nextToken(); err != nil {
